@@ -1750,7 +1750,84 @@ func c18NamedKeys(c *core.Ctx) {
 				"ImportConfig reads the named parameter "+k+" more than once: two parts of the object are filled from the same exported value, so the decoded object differs from the encoded one")
 		}
 	}
+	// cross-wired setters: the value read under name K must not be installed by the setter of another named parameter X
+	for _, fn := range sortedImports(imports) {
+		ii := imports[fn]
+		info := ii.pkg.TypesInfo
+		keyOf := map[types.Object]string{}
+		ast.Inspect(ii.fd.Body, func(x ast.Node) bool {
+			as, ok := x.(*ast.AssignStmt)
+			if !ok || len(as.Rhs) != 1 || len(as.Lhs) < 1 {
+				return true
+			}
+			call, ok := ast.Unparen(as.Rhs[0]).(*ast.CallExpr)
+			if !ok || len(call.Args) < 1 {
+				return true
+			}
+			callee := core.Callee(info, call)
+			if callee == nil || !strings.HasPrefix(callee.Name(), "GetNamedParameter") {
+				return true
+			}
+			tv, ok := info.Types[call.Args[0]]
+			if !ok || tv.Value == nil {
+				return true
+			}
+			if id, ok := as.Lhs[0].(*ast.Ident); ok {
+				o := info.Defs[id]
+				if o == nil {
+					o = info.Uses[id]
+				}
+				if o != nil {
+					keyOf[o] = strings.Trim(tv.Value.ExactString(), "\"")
+				}
+			}
+			return true
+		})
+		if len(keyOf) == 0 {
+			continue
+		}
+		keys := map[string]bool{}
+		for _, k := range keyOf {
+			keys[strings.ToLower(k)] = true
+		}
+		ast.Inspect(ii.fd.Body, func(x ast.Node) bool {
+			call, ok := x.(*ast.CallExpr)
+			if !ok {
+				return true
+			}
+			sel, ok := ast.Unparen(call.Fun).(*ast.SelectorExpr)
+			if !ok || !strings.HasPrefix(sel.Sel.Name, "Set") {
+				return true
+			}
+			X := strings.ToLower(strings.TrimPrefix(sel.Sel.Name, "Set"))
+			if !keys[X] {
+				return true
+			}
+			for _, a := range call.Args {
+				id, ok := ast.Unparen(a).(*ast.Ident)
+				if !ok {
+					continue
+				}
+				K, has := keyOf[info.Uses[id]]
+				if !has {
+					continue
+				}
+				c.Check(strings.ToLower(K) == X, "C18.R7", c.FuncName(ii.pkg, ii.fd), "value read as "+K+" is installed by its own setter", call.Pos(),
+					"the value read under the name "+K+" is passed to "+sel.Sel.Name+", the setter of another named parameter: the decoded object has "+K+" where the encoded one had "+strings.TrimPrefix(sel.Sel.Name, "Set"))
+			}
+			return true
+		})
+	}
 	c.Analysed["named_config_types"] = n
+}
+
+func sortedImports[T any](m map[*types.Func]T) []*types.Func {
+	var fs []*types.Func
+	for f := range m {
+		fs = append(fs, f)
+	}
+	sort.Slice(fs, func(i, j int) bool { return fs[i].FullName() < fs[j].FullName() })
+	return fs
 }
 
 // ---------------------------------------------------------------------------
